@@ -47,6 +47,7 @@ const prop = "C10"
 
 func TestMain(m *testing.M) {
 	log.SetOutput(io.Discard) // CheckSizes and kvfile.Close log on every call
+	sweepStale()
 	evid.Main(m, prop, "exploration",
 		"rapid t.Repeat histories of get/set/delete/batch(1-8 mixed mods)/find(start,end; drained or closed early)/flush/reopen against a sorted map[string]string model, "+
 			"on memory, leveldb, kv file, sqlite and buffer.New(memory, X, maxBuffer in {1,64,0}) over each X; keys over {a,b,|,:,~,0xc3a9,0xff,space} of 1-6 tokens drawn mostly from a per-case pool of nested/colliding keys plus keys of 766/767/768 bytes; "+
@@ -76,8 +77,8 @@ type inst struct {
 	spec implSpec
 	dir  string
 	top  sorted.KeyValue
-	back sorted.KeyValue   // the store made by sorted.NewKeyValue (== top when not buffered)
-	buf  *buffer.KeyValue  // nil when not buffered
+	back sorted.KeyValue  // the store made by sorted.NewKeyValue (== top when not buffered)
+	buf  *buffer.KeyValue // nil when not buffered
 }
 
 func (in *inst) openBase() (sorted.KeyValue, error) {
@@ -106,7 +107,7 @@ func (in *inst) wrap() {
 func newInst(spec implSpec) (*inst, error) {
 	in := &inst{spec: spec}
 	if spec.persistent() {
-		d, err := os.MkdirTemp("", "c10-")
+		d, err := caseDir()
 		if err != nil {
 			return nil, err
 		}
@@ -120,6 +121,45 @@ func newInst(spec implSpec) (*inst, error) {
 	in.back = b
 	in.wrap()
 	return in, nil
+}
+
+// caseDir makes the per-case directory. It prefers tmpfs (/dev/shm): the
+// property is about what a store shows after Close + reopen in a live process,
+// not about surviving power loss, and on the shared disk every sqlite/kv commit
+// is an fsync whose latency under load (other checks run concurrently) made the
+// quick tier take 15 minutes instead of 30 seconds.
+func caseDir() (string, error) {
+	if d, err := os.MkdirTemp(tmpRoot, "c10-"); err == nil {
+		return d, nil
+	}
+	return os.MkdirTemp("", "c10-")
+}
+
+var tmpRoot = func() string {
+	if fi, err := os.Stat("/dev/shm"); err == nil && fi.IsDir() {
+		return "/dev/shm"
+	}
+	return ""
+}()
+
+// sweepStale removes case directories left behind by a killed run (older than 2 h).
+func sweepStale() {
+	root := tmpRoot
+	if root == "" {
+		root = os.TempDir()
+	}
+	ents, err := os.ReadDir(root)
+	if err != nil {
+		return
+	}
+	for _, e := range ents {
+		if !e.IsDir() || !strings.HasPrefix(e.Name(), "c10-") {
+			continue
+		}
+		if fi, err := e.Info(); err == nil && time.Since(fi.ModTime()) > 2*time.Hour {
+			os.RemoveAll(filepath.Join(root, e.Name()))
+		}
+	}
 }
 
 // reopen closes the store and opens it again over the same file. For the
@@ -252,23 +292,39 @@ func genPool() *rapid.Generator[[]string] {
 
 var valAlphabet = []byte("ab|:~ 0\xc3\xa9\xff")
 
-func genValue() *rapid.Generator[string] {
-	return rapid.Custom(func(t *rapid.T) string {
+// valSpec is what is drawn for a value; the string itself is built outside
+// the Draw so that rapid never logs a 63 kB line (its fail-file loader cannot
+// read lines over 64 kB, which would make such a case impossible to replay).
+type valSpec struct {
+	Fill string // big values: Fill repeated N times
+	N    int
+	Lit  string // small values (0-20 bytes)
+}
+
+func (v valSpec) str() string {
+	if v.N > 0 {
+		return strings.Repeat(v.Fill, v.N)
+	}
+	return v.Lit
+}
+
+func genValue() *rapid.Generator[valSpec] {
+	return rapid.Custom(func(t *rapid.T) valSpec {
 		kind := rapid.IntRange(0, 19).Draw(t, "valkind")
 		switch {
 		case kind <= 2:
-			return ""
+			return valSpec{}
 		case kind == 3:
 			n := rapid.SampledFrom([]int{62999, 63000, 63001}).Draw(t, "vallen")
 			c := rapid.SampledFrom([]string{"v", "|", "\xff"}).Draw(t, "valfill")
-			return strings.Repeat(c, n)
+			return valSpec{Fill: c, N: n}
 		default:
 			n := rapid.IntRange(1, 20).Draw(t, "vallen")
 			b := make([]byte, n)
 			for i := range b {
 				b[i] = rapid.SampledFrom(valAlphabet).Draw(t, "vb")
 			}
-			return string(b)
+			return valSpec{Lit: string(b)}
 		}
 	})
 }
@@ -285,16 +341,16 @@ func show(s string) string {
 // the machine
 
 type machine struct {
-	in      *inst
-	model   map[string]string
-	pool    []string
-	hist    []string
-	maxOps  int
-	nOps    int
-	nMut    int // mutations (set/delete/batch) so far, incl. skipped oversize ones not counted
-	sawDel  bool
-	f       map[string]bool // history features
-	counts  map[string]int
+	in     *inst
+	model  map[string]string
+	pool   []string
+	hist   []string
+	maxOps int
+	nOps   int
+	nMut   int // mutations (set/delete/batch) so far, incl. skipped oversize ones not counted
+	sawDel bool
+	f      map[string]bool // history features
+	counts map[string]int
 }
 
 func (m *machine) key(t *rapid.T) string {
@@ -384,7 +440,7 @@ func (m *machine) set(t *rapid.T) {
 		m.get(t)
 		return
 	}
-	k, v := m.key(t), genValue().Draw(t, "value")
+	k, v := m.key(t), genValue().Draw(t, "value").str()
 	m.op("set", show(k)+"="+show(v))
 	m.noteKV(k, v, true)
 	var err error
@@ -452,7 +508,7 @@ func (m *machine) batch(t *rapid.T) {
 			mods[i] = mod{del: true, k: k}
 			parts = append(parts, "del "+show(k))
 		} else {
-			v := genValue().Draw(t, "value")
+			v := genValue().Draw(t, "value").str()
 			mods[i] = mod{k: k, v: v}
 			parts = append(parts, "set "+show(k)+"="+show(v))
 		}
@@ -697,6 +753,32 @@ func runCase(t *rapid.T, spec implSpec) {
 		f:      map[string]bool{},
 		counts: map[string]int{},
 	}
+	// Prologue ("aged" store): a few set+reopen rounds, so that the persistent
+	// stores are not always in their freshly-created shape (leveldb: table files
+	// in sorted levels instead of only the memtable/journal) when the history starts.
+	if spec.persistent() {
+		age := rapid.SampledFrom([]int{0, 0, 0, 3, 7}).Draw(t, "age")
+		for i := 0; i < age; i++ {
+			k, v := m.pool[i%len(m.pool)], fmt.Sprintf("age%d", i)
+			var err error
+			m.guard(t, "Set", func() { err = in.top.Set(k, v) })
+			if err != nil {
+				m.fail(t, "prologue Set(%s): %v", show(k), err)
+			}
+			if !oversize(k, v) {
+				m.model[k] = v
+			}
+			m.guard(t, "Close+reopen", func() { err = in.reopen() })
+			if err != nil {
+				m.fail(t, "prologue reopen: %v", err)
+			}
+		}
+		if age > 0 {
+			m.hist = append(m.hist, fmt.Sprintf("prologue %d x (set pool[i]=\"age<i>\"; reopen)", age))
+			m.scan(t, in.top, "after prologue, ", "", "", -1, false)
+			m.f["aged-store"] = true
+		}
+	}
 	actions := map[string]func(*rapid.T){
 		"":        m.afterOp,
 		"get":     m.get,
@@ -780,7 +862,7 @@ func runBase(t *testing.T, base string, quickN, thoroughN int) {
 	})
 }
 
-func TestMemory(t *testing.T)  { runBase(t, "memory", 500, 2500) }
-func TestLevelDB(t *testing.T) { runBase(t, "leveldb", 400, 2500) }
-func TestKVFile(t *testing.T)  { runBase(t, "kv", 400, 2500) }
-func TestSqlite(t *testing.T)  { runBase(t, "sqlite", 400, 2500) }
+func TestMemory(t *testing.T)  { runBase(t, "memory", 800, 2500) }
+func TestLevelDB(t *testing.T) { runBase(t, "leveldb", 700, 2500) }
+func TestKVFile(t *testing.T)  { runBase(t, "kv", 700, 2500) }
+func TestSqlite(t *testing.T)  { runBase(t, "sqlite", 700, 2500) }
